@@ -270,6 +270,15 @@ def run(ctx) -> Report:
         "a(VxU)": Mo.form("a", V, U),
     }
     vectors = {"u(V)": Mo.coefficient("u", V), "w(U)": Mo.coefficient("w", U)}
+
+    # sums of coefficients as expressions (ufl Sum nodes): Action distributes over them on either side
+    def vector_sum(a, b, S):
+        o = W.new("Sum", a, b)
+        Mo.den_atoms[id(o)] = (o, uflsem.t_add(Mo.den(a)[0], Mo.den(b)[0]), (S,))
+        return o
+
+    vectors["(u + u2)(V)"] = vector_sum(vectors["u(V)"], Mo.coefficient("u2", V), V)
+    vectors["(w + w2)(U)"] = vector_sum(vectors["w(U)"], Mo.coefficient("w2", U), U)
     identities_right = {"Argument(V)": Mo.identity(V), "Argument(U)": Mo.identity(U)}
     identities_left = {"Coargument(V*)": Mo.identity(V, co=True), "Coargument(U*)": Mo.identity(U, co=True)}
     where = {n: prog.lookup(prog.get_class(q), "__new__") for n, q in (("Action", "ufl.action.Action"), ("Adjoint", "ufl.adjoint.Adjoint"), ("FormSum", "ufl.form.FormSum"))}
@@ -299,6 +308,9 @@ def run(ctx) -> Report:
         for (n1, b1, (t1, s1)), (n2, b2, (t2, s2)) in itertools.product(items, vecs):
             if s1 and Mo.contractible(s1[-1], s2[0]):
                 out.append((f"action({n1}, {n2})", "Action", (lambda b1=b1, b2=b2: W.new("ufl.action.Action", b1(), b2())), Mo.contract((t1, s1), (t2, s2))))
+            if s1 and len(s1) == 1 and "+" in n2 and Mo.contractible(s2[0], s1[0]):
+                # a sum of coefficients on the left of a one-form on the dual space
+                out.append((f"action({n2}, {n1})", "Action", (lambda b1=b1, b2=b2: W.new("ufl.action.Action", b2(), b1())), Mo.contract((t2, s2), (t1, s1))))
         out += with_identities(items)
         return out
 
